@@ -82,6 +82,24 @@ theorem M44_multiplyStatic {α : Type} [CommRing α] (a b : M44 α) : Gen.M44.mu
 theorem M44_multiplyStatic3 {α : Type} [CommRing α] (a b : M44 α) : Gen.M44.multiplyStatic3 a b = Gen.M44.mul a b := by
   rfl
 
+/-! ## aliasing: `x *= x`, `v %= v`, `multiply (a, b, a)` still compute the product of the ORIGINAL operands -/
+
+theorem Quat_mulAssignSelf {α : Type} [CommRing α] (a : Quat α) : Gen.Quat.mulAssignSelf a = Gen.Quat.mul a a := by
+  unfold Gen.Quat.mulAssignSelf Gen.Quat.mul
+  congr 1; congr 1 <;> ring
+theorem M22_mulAssignSelf {α : Type} [CommRing α] (a : M22 α) : Gen.M22.mulAssignSelf a = Gen.M22.mul a a := by
+  simp only [Gen.M22.mulAssignSelf, Gen.M22.mul]
+theorem M33_mulAssignSelf {α : Type} [CommRing α] (a : M33 α) : Gen.M33.mulAssignSelf a = Gen.M33.mul a a := by
+  simp only [Gen.M33.mulAssignSelf, Gen.M33.mul]
+theorem M44_mulAssignSelf {α : Type} [CommRing α] (a : M44 α) : Gen.M44.mulAssignSelf a = Gen.M44.mul a a := by
+  simp only [Gen.M44.mulAssignSelf, Gen.M44.mul]
+theorem V3_crossAssignSelf {α : Type} [CommRing α] (a : V3 α) : Gen.V3.crossAssignSelf a = Gen.V3.cross a a := by
+  simp only [Gen.V3.crossAssignSelf, Gen.V3.cross]
+theorem M44_multiplyStatic3AliasA {α : Type} [CommRing α] (a b : M44 α) : Gen.M44.multiplyStatic3AliasA a b = Gen.M44.mul a b := by
+  simp only [Gen.M44.multiplyStatic3AliasA, Gen.M44.mul]
+theorem M44_multiplyStatic3AliasB {α : Type} [CommRing α] (a b : M44 α) : Gen.M44.multiplyStatic3AliasB a b = Gen.M44.mul a b := by
+  simp only [Gen.M44.multiplyStatic3AliasB, Gen.M44.mul]
+
 /-! ## transpose, trace -/
 
 theorem M22_transposed {α : Type} (a : M22 α) : (Gen.M22.transposed a).toMat = a.toMatᵀ := by
